@@ -87,6 +87,12 @@ def write_replay(prop_id, case, violation) -> str:
     path = os.path.join(d, f"{violation.get('clause', 'x').replace('/', '_')}-{_case_id(case)}.json")
     with open(path, 'w') as f:
         json.dump(body, f, indent=1, default=str)
+    # the same artefact as a plain unit test that replays it without the explorer
+    with open(path[:-5].replace('.', '_').replace('-', '_') + '_test.py', 'w') as f:
+        f.write('"""Replays one recorded violation of %s (%s) on the current /repo tree; fails while it still reproduces."""\n'
+                'import subprocess\n\n\ndef test_replay():\n'
+                '    r = subprocess.run([%r, "replay", %r], capture_output=True, text=True)\n'
+                '    assert r.returncode == 0, r.stdout[-2000:]\n' % (prop_id, violation.get('clause'), os.path.join(env.VERIF_ROOT, 'check'), path))
     return path
 
 
